@@ -214,7 +214,9 @@ async fn eval_config(
     }
     tally.configs += 1;
     let resources = matrix_resources(built);
-    for who in 1..3usize {
+    // 1 = p1, 2 = p2, 3 = co (the second owner: decision matrix only, an owner's
+    // answers are the unfiltered ones)
+    for who in 1..4usize {
         if let Some((w, _)) = only {
             if w != who {
                 continue;
@@ -285,6 +287,9 @@ async fn eval_config(
             });
         }
 
+        if who == 3 {
+            continue;
+        }
         let matrix_failed = tally.failures.iter().any(|f| f.kind == "authz" && f.who == who && f.config == config);
 
         // --- readable set and masks ------------------------------------------
@@ -634,7 +639,7 @@ fn main() {
         run.sample(s);
     }
     run.rule(&format!(
-        "every sequence of <= {full_depth} control-plane actions over the alphabet, plus for depth <= {max_depth} the first sequence reaching each further canonical AuthModel state (no-op actions pruned); per configuration: both Principals (p1 standard, p2 strong authentication) x decision matrix ({} permissions x {} resources) x {} battery commands (quick tier: the battery without its 24 family-repeating items; a Principal no record was ever about answers 7 commands of different families); distinct non-trivial = (canonical state, Principal) whose readable set is a proper non-empty subset of the population or carries a field mask",
+        "every sequence of <= {full_depth} control-plane actions over the alphabet, plus for depth <= {max_depth} the first sequence reaching each further canonical AuthModel state (no-op actions pruned); per configuration: p1 (standard), p2 (strong authentication) and the co-owner (matrix only) x decision matrix ({} permissions x {} resources) x {} battery commands (quick tier: the battery without its 24 family-repeating items; a Principal no record was ever about answers 7 commands of different families); distinct non-trivial = (canonical state, Principal) whose readable set is a proper non-empty subset of the population or carries a field mask",
         MATRIX_PERMS.len(), N + 6, items.len()
     ));
     run.assume("AuthModel (vgov/src/model.rs) restates docs/anda_cognitive_nexus.md §10 and the rows.rs/decision.rs doc comments for the bounded alphabet; answers are compared after the canonicalisation documented in vgov/src/battery.rs (ids -> logical keys; clocks, tx ids and Space sequence numbers dropped)");
